@@ -98,9 +98,10 @@ CLAIMS = {
          "(the width checker reads its tables only at the referenced names), execAction_congr, C01_order_independent, "
          "C10_cycle_iff. Every generated program (accepted, faulty, looping) is also built and run 4-8 times in-process with "
          "fresh hash seeds and must behave identically; the CLI is run repeatedly in C19's stream.",
-         "partial: for rejected programs the theorem gives 'rejected on every run'; that the *set* of diagnostics is the same "
-         "(loop contents excepted) and the byte-identity of the printed text are sampled (8 rebuilds per program, S-DUMP, "
-         "CLI stream), not proved. Renaming invariance is exercised by the generators but not stated as a theorem.",
+         "partial: C12_diagnostics_order_independent proves that a rejected program gets the same diagnostics (kinds and names, "
+         "with multiplicity, in some order; or one loop each) under every order; the byte-identity of the printed text "
+         "(errors.rs, dump) is sampled (8 rebuilds per program, S-DUMP, CLI stream), not proved. Renaming invariance is "
+         "exercised by the generators but not stated as a theorem.",
          "Lean 4 proof (order-independence of constants, verdict, action set and whole runs, by induction over the loops and "
          "uniqueness of settlement) + repeated builds under fresh hash seeds"),
  "C13": ("Lean theorems C13_construction_no_internal_error (for every statement list with well-formed literals and widths, every flag set, every classification of bank letters and every iteration order of the hash tables, whatever diagnostics the model of Program::new returns, none is InternalPanic: every assert!, unwrap(), panic! and unchecked slice of resolve_constants, preprocess_fixed, assignments_to_actions, the sorter, the register-bank stage and constant evaluation is modelled as an InternalPanic diagnostic and shown unreachable; this includes that the topological order always satisfies the loop's assert!(covered..)), C13_accepted_runs (= C07_accepted: an accepted program's run never panics), C13_lexer_progress / C13_lexer_terminates (the lexer loop consumes input on every turn), C13_render_total / C13_render_total_y86 / C13_lookup_total (show_region, line_number_and_bounds, filename never slice, subtract or index out of range, for any offsets incl. usize::MAX). The LALRPOP parser and the message building of errors.rs are tied by S-TEXT (model of Program::new on every text that parses, lexer model on every text that does not) and S-BYTES (the real binary on arbitrary bytes).",
@@ -121,12 +122,22 @@ CLAIMS = {
  "C15": ("Lean theorems C15_line (for every valid-UTF-8 line, load_line_y86 classifies and loads it exactly as the format specification Spec.classify says: a data line stores its byte pairs at consecutive addresses from its address, a line without '|' or a comment line changes nothing, anything else is refused) and C15_image (for every list of valid-UTF-8 lines the loader refuses exactly when a line is malformed or there is no line, and otherwise every address holds what the listing denotes: later lines over earlier ones, 0 elsewhere; overlay_spec: byte k of a data line is at address+k, all other addresses untouched), C15_invalid_utf8 (a line that is not UTF-8 is an I/O error), C15_line_no_panic / C15_load_no_panic (str::get / slicing never panics). The proofs use that in valid UTF-8 the position after an ASCII byte is a character boundary (validUtf8_boundary), so str::get on the fixed columns agrees with plain byte comparison.",
          'BufRead::lines (splitting at LF, dropping CR) is modelled by splitLines and tied by the S-YO streams.',
          'Lean 4 proof (panic-freedom of byte slicing) + differential oracle on valid and malformed listings'),
- "C16": ("The real dump_y86_str text is compared byte for byte with the Lean model Dump.state on random machine states (registers "
-         "to 2^64-1, sparse/unaligned/top-of-address-space memory, 0-6 banks with long and non-ASCII names forcing wraps, all "
-         "banners), and read back by the format reader Spec.DumpFormat.parse into exactly the state (oracle). Theorems so far: "
-         "C16_hex_roundtrip / hexDigits_roundtrip (every number printed in hexadecimal reads back as itself).",
-         "The whole-dump round-trip theorem parse (dump st) = st is not proved; it is checked on every generated state.",
-         "differential model + parse-back oracle; Lean 4 proof of the number rendering round trip"),
+ "C16": ("Lean theorems about the model of dump_memory_y86 (its loop printing tokens: a row label or one of sixteen cells), for "
+         "every memory with strictly increasing addresses below 2^64 -- which C16_memory_reachable shows every memory is that "
+         "the loader accepts and any number of cycles of any program produce: C16_memory_tokens (what the walk prints, key by "
+         "key, incl. completion of rows, rows far apart, unaligned first address and the wrap at 2^64-1; the loop's fuel "
+         "suffices), C16_memory_roundtrip (reading the tokens back -- a byte in column i of the row labelled r is the byte at "
+         "16r+i -- gives exactly the memory: every used byte at its own address, no other byte), C16_memory_rows (complete "
+         "rows: a label then cells 0..15), C16_hexpad_roundtrip / C16_hex_roundtrip (every number printed in hexadecimal, at "
+         "any padding width, reads back as itself). The real dump_y86_str text is compared byte for byte with the Lean model "
+         "Dump.state on random machine states (registers to 2^64-1, sparse/unaligned/top-of-address-space memory, 0-6 banks "
+         "with long and non-ASCII names forcing wraps, all banners), and read back by Spec.DumpFormat.parse into exactly the "
+         "state (oracle).",
+         "partial: the round trip is proved for the memory section at the level of its tokens; the character-level reader "
+         "(Spec.DumpFormat.parse) on the whole text, the program-register lines and the wrapped bank lines are checked on every "
+         "generated state, not proved.",
+         "Lean 4 proof (memory walk: invariant over the sorted keys, token round trip, reachability of the hypothesis) + "
+         "differential model + parse-back oracle"),
  "C17": ("Lean theorem C17_eval_flag_independent: an expression accepted under two strictness flag sets has the same width "
          "and evaluates identically under both, for every valuation (the flags occur in the model's check and applyBin; the "
          "specification's value does not mention them). The harness is rebuilt per cargo feature set and accept/reject + "
